@@ -111,8 +111,8 @@ HasInline(mt) == mt \in {"css", "svg"}                               \* option s
 AppendsPkg(mt) == mt \in {"css", "html"}                             \* append(urlBytes/dataBytes, ...)
 
 DomainShapes == AllShapes \ {"add"}                                  \* the property's domain (no registration during use)
-CoreShapes == {"css", "cssi", "js", "json", "xml", "svg0", "svg1", "html0", "htmlC", "htmlS", "htmlG", "htmlGre", "cssG",
-               "gate", "gatere", "cmd", "cmdin", "none", "cssH", "htmlSH", "matchL", "matchS", "matchG"}
+CoreShapes == {"css", "cssi", "js", "svg0", "svg1", "html0", "htmlC", "htmlS", "htmlG", "cssG",
+               "gate", "gatere", "cmdin", "none", "cssH", "htmlSH", "matchS", "matchG"}
 SmallShapes == {"cssH", "htmlS", "cssG", "gatere", "matchS"}
 PairShapes == {"cssi", "svg0", "htmlS", "gate"}
 QuickShapes == {"css", "cssi", "svg0", "svg1", "htmlS", "htmlG", "svgG", "gatere", "matchS", "matchG", "cmdin", "none", "htmlCH"}
